@@ -17,6 +17,13 @@ def core_fragment():
             ('bind', 'x', None, ('exists', 'xx', None, ('and', ('jump', 'xx', ('EF', X)), ('AW', XX, ('EF', ('and', X, P1)))))), ('iff', ('EF', P0), ('EU', ('true',), P0)),
             ('xor', ('AG', P0), ('AW', P0, ('false',)))]
 
+def operand_pairs(ops=('EU', 'AW')):
+    """binary fragment operators over every pair of state predicates that are conjunctions of literals: the shapes where a
+    steady state satisfies the left operand only and a branching state sees both it and the right operand"""
+    N0, N1 = ('not', P0), ('not', P1)
+    A = [P0, N0, P1, N1, ('and', P0, P1), ('and', N0, P1), ('and', P0, N1), ('and', N0, N1)]
+    return [(b, l, r) for b in ops for l in A for r in A if l != r]
+
 def core_other():
     return [('EX', P0), ('AX', P0), ('AF', P0), ('EG', P0), ('AU', P0, P1), ('EW', P0, P1), ('bind', 'x', None, ('EX', X)), ('exists', 'x', None, ('jump', 'x', ('AF', ('and', X, P0)))),
             ('AG', ('EX', ('EF', P0))), ('forall', 'x', None, ('AU', ('not', X), ('EG', P1)))]
@@ -46,13 +53,15 @@ def run(chk):
     thorough = chk.tier == 'thorough'
     chk.bounds.update({'E-MIR': 'model_check_formula_unsafe_ex and eval_node (steady-state argument = free symbolic set) executed from MIR, n=2, k<=2, all transition systems',
                        'E-UNI': 'model_check_formula_unsafe_ex vs model_check_formula_dirty on instances U2, C2, M2; for formulas outside the fragment the miter is restricted to colours without a steady state'})
-    frag = core_fragment() + small_binder_formulas() + [G.random_formula(chk.rng, 3, ['v0', 'v1'], ops_un=FRAG_UN, ops_bin=FRAG_BIN) for _ in range(40 if thorough else 8)]
+    pairs = operand_pairs()
+    frag = core_fragment() + small_binder_formulas() + pairs + [G.random_formula(chk.rng, 3, ['v0', 'v1'], ops_un=FRAG_UN, ops_bin=FRAG_BIN) for _ in range(40 if thorough else 8)]
     other = core_other() + [G.random_formula(chk.rng, 3, ['v0', 'v1']) for _ in range(30 if thorough else 6)]
     other = [f for f in other if not in_fragment(f)]
     # the shortcut '!{x}: AX {x}' is documented as unsupported by the variant and is excluded (it contains AX anyway)
     tasks = []
     nf = len(core_fragment()) + len(small_binder_formulas())
-    for f in frag[:nf + (30 if thorough else 6)]:
+    sel = [f for f in pairs if f[1][0] in ('not', 'prop') and f[2][0] == 'and'] if not thorough else pairs      # E-MIR: literal W/U conjunction (quick)
+    for f in frag[:nf] + sel + frag[nf + len(pairs):][:(30 if thorough else 6)]:
         k = S.quant_depth(f) or 1
         if k > 2: continue
         # (1) the variant == standard semantics (with self-loops) on the fragment; the text uses user-given variable names
